@@ -4,6 +4,7 @@ mod common;
 mod bl;
 mod ck;
 mod cms;
+mod heap;
 mod hll;
 mod lc;
 mod qf;
@@ -92,6 +93,10 @@ fn main() {
         ("replay", "lc") => replay::<lc::LcSut>(&args),
         ("scenario", "lc") => scenario::<lc::LcSut>(&args),
         ("drive", "lc") => lc::drive(&args),
+        ("replay", "heap") => replay::<heap::HeapSut>(&args),
+        ("scenario", "heap") => scenario::<heap::HeapSut>(&args),
+        ("drive", "heap") => heap::drive(&args),
+        ("learn", "heap") => heap::learn(&args),
         ("replay", "ck") => replay::<ck::CkSut>(&args),
         ("scenario", "ck") => scenario::<ck::CkSut>(&args),
         ("drive", "ck") => ck::drive(&args),
